@@ -719,7 +719,17 @@ def walrus_binds_before(root: ast.AST, use: ast.Name) -> bool:
                 if [i for i, v in enumerate(vals) if v is wbranch][0] < [i for i, v in enumerate(vals) if v is ubranch][0]:
                     return True
             continue
-        if isinstance(lca, (ast.ListComp, ast.SetComp, ast.GeneratorExp, ast.DictComp, ast.Lambda)):
+        if isinstance(lca, (ast.ListComp, ast.SetComp, ast.GeneratorExp, ast.DictComp)):
+            # a comprehension evaluates, per element, the conditions of its generators before the element expression
+            # (and before the later generators): a walrus in a condition binds before those
+            gens = list(lca.generators)
+            if isinstance(wbranch, ast.comprehension) and any(w is x for i_ in wbranch.ifs for x in ast.walk(i_)):
+                if not isinstance(ubranch, ast.comprehension):
+                    return True
+                if gens.index(ubranch) > gens.index(wbranch):
+                    return True
+            continue
+        if isinstance(lca, ast.Lambda):
             continue
         # plain left-to-right evaluation of the children
         order = [id(c) for c in ast.iter_child_nodes(lca)]
